@@ -101,6 +101,13 @@ M("C13", "present-returns-true", (QF, "        if scan_result.present {\n       
 M("C13", "capacity-check-off-by-one", (QF, "        if self.n_elements == self.is_occupied.len() {", "        if self.n_elements + 1 == self.is_occupied.len() {"), "R13-contract", "partition")
 M("C13", "no-count-increment", (QF, "        // done\n        self.n_elements += 1;\n        Ok(true)", "        // done\n        Ok(true)"), "R13-contract", "insert")
 M("C13", "query-uses-on-insert-scan", (QF, "        self.scan(quotient, remainder, false).present", "        self.scan(remainder, quotient, false).present"), "R13-wrappers", "query")
+M("C13", "chain-writes-remainder-before-reading", (QF, "            let next_remainder = self.remainders.get(position as u64);\n            let next_used = self.is_occupied[position] || self.is_shifted[position];\n\n            self.is_shifted.set(position, true);\n            self.is_continuation.set(position, current_is_continuation);\n            self.remainders.set(position as u64, current_remainder);", "            self.remainders.set(position as u64, current_remainder);\n            let next_remainder = self.remainders.get(position as u64);\n            let next_used = self.is_occupied[position] || self.is_shifted[position];\n\n            self.is_shifted.set(position, true);\n            self.is_continuation.set(position, current_is_continuation);"), "R13-swap-chain", "insert_internal")
+M("C13", "chain-used-ignores-shifted", (QF, "            let next_used = self.is_occupied[position] || self.is_shifted[position];", "            let next_used = self.is_occupied[position];"), "R13-swap-chain", "insert_internal")
+M("C13", "chain-continuation-not-carried", (QF, "            current_is_continuation = next_is_continuation;\n            current_remainder = next_remainder;", "            current_is_continuation = true;\n            let _ = next_is_continuation;\n            current_remainder = next_remainder;"), "R13-swap-chain", "insert_internal")
+M("C13", "incr-wraps-one-late", (QF, "        *pos = if *pos == self.is_occupied.len() - 1 {\n            0", "        *pos = if *pos == self.is_occupied.len() {\n            0"), "R13-ring", "incr")
+M("C13", "shifted-flag-unconditional-off", (QF, "        if scan_result.position != quotient {\n            // not at canonical slot\n            self.is_shifted.set(scan_result.position, true);\n        }", "        if scan_result.position > quotient {\n            // not at canonical slot\n            self.is_shifted.set(scan_result.position, true);\n        }"), "R13-placement-flags", "insert_internal")
+M("C13", "quotient-one-bit-short", (QF, "        let quotient = fingerprint_clean >> bits_remainder;\n        let remainder = fingerprint_clean - (quotient << bits_remainder);", "        let quotient = fingerprint_clean >> bits_remainder >> 1 << 1;\n        let remainder = fingerprint_clean - ((fingerprint_clean >> bits_remainder) << bits_remainder);"), "R13-split", "calc_quotient_remainder")
+B("C13", "chain-reorder-independent-reads", (QF, "            let next_is_continuation = self.is_continuation[position];\n            let next_remainder = self.remainders.get(position as u64);", "            let next_remainder = self.remainders.get(position as u64);\n            let next_is_continuation = self.is_continuation[position];"))
 B("C13", "bind-capacity", (QF, "        if self.n_elements == self.is_occupied.len() {", "        let capacity = self.is_occupied.len();\n        if self.n_elements == capacity {"))
 
 # ======================================================================================= C18
